@@ -201,6 +201,40 @@ def parsable(pdu: bytes) -> bool:
     return codec_parsable(pdu)
 
 
+def pristine_verdicts(hexes: list[str]) -> tuple[dict[str, bool], list[dict[str, Any]]]:
+    """The codec's verdict on every PDU taken in two fresh interpreters (ascending / descending order of the
+    PDUs).  Returns (verdict of the ascending run, disagreements between the two runs)."""
+    import subprocess
+    import sys as _sys
+
+    order = sorted(set(hexes))
+    jobs = []
+    for lst in (order, order[::-1]):
+        jobs.append((lst, subprocess.Popen([_sys.executable, "-m", "harness.c13_pristine"], stdin=subprocess.PIPE,
+                                           stdout=subprocess.PIPE, stderr=subprocess.PIPE, text=True)))
+    maps = []
+    import threading
+
+    outs: list[Any] = [None, None]
+
+    def feed(i: int, lst: list[str], pr: Any) -> None:
+        outs[i] = pr.communicate(json.dumps({"pdus": lst}))
+
+    ths = [threading.Thread(target=feed, args=(i, lst, pr)) for i, (lst, pr) in enumerate(jobs)]
+    for t in ths:
+        t.start()
+    for t in ths:
+        t.join()
+    for i, (lst, pr) in enumerate(jobs):
+        out, err = outs[i]
+        if pr.returncode != 0:
+            raise Machinery(f"pristine classifier failed: {err[-800:]}")
+        maps.append(dict(zip(lst, (bool(x) for x in json.loads(out)))))
+    dis = [{"hex": h[:64], "ascending_order": maps[0][h], "descending_order": maps[1][h]}
+           for h in order if maps[0][h] != maps[1][h]]
+    return maps[0], dis
+
+
 _UNSET = object()
 
 
